@@ -754,7 +754,8 @@ class _ARM64_ELF(ABI):
         return ".L"
 
     def default_dwarf_eh_return_column(self) -> int:
-        return 32
+        # x30 (the link register), as in the CIEs GCC and LLVM emit.
+        return 30
 
     def _sym_expr_rules(
         self, module: gtirb.Module
@@ -885,7 +886,8 @@ class _MIPS32_ELF(ABI):
         return ".L"
 
     def default_dwarf_eh_return_column(self) -> int:
-        return 32
+        # $ra, as in the CIEs GCC and LLVM emit.
+        return 31
 
     def _sym_expr_rules(
         self, module: gtirb.Module
